@@ -19,9 +19,10 @@ def container(kind_text, ref, extra=""):
               "assertions); TLC-generated behaviours (simulate + all histories of bounded length) and biased harness "
               "histories are replayed through the public API of real objects under several label maps and listing "
               "orders, and every logged event (state projection + queries) is re-executed by TLC against Trace_HGX. "
-              "%sHistories are replayed under seven label families (small / sparse / large / negative ints, short and long "
-              "strings; every label is passed as a fresh equal object), with explicit zero weights, falsy and nested metadata "
-              "values, and in three observation modes (queries after most calls, after every third call, only at the end) so "
+              "%sHistories are replayed under nine label families (small / sparse / large / negative ints, short and long "
+              "strings, colliding concatenations, neighbours beyond 2^53; every label is passed as a fresh equal object), with "
+              "explicit zero weights, falsy, None and nested metadata values, repeated entries inside one batch, listings "
+              "that the caller empties after copying, and in three observation modes (queries after most calls, after every third call, only at the end) so "
               "that stale caches are not refreshed by the observer. Exhaustive only for the small universes; larger ones are "
               "sampled." % (kind_text, extra)),
         note=NOTE, technique=TECH)
@@ -44,7 +45,9 @@ CHECKS = {
                      "function of the abstract content. "),
     "C08": container("Kind=hg for connectivity, all kinds for degrees", "3 C08", "All 128 hypergraphs on 3 nodes plus the "
                      "replayed histories; every function of utils/cc.py and measures/degree.py (method and module level, "
-                     "order= and size= spellings) compared with Components/Degree of Derive.tla. "),
+                     "order= and size= spellings) compared with Components/Degree of Derive.tla. Large block-structured inputs "
+                     "(20-400 nodes: long paths, big hyperedges with pendants, stars, unions) are decided by the block formulas "
+                     "of Blocks.tla, which MC_Blocks proves equal to the general definitions for small parameters. "),
     "C12": dict(
         level="model_checking", ref="3 C12",
         text=("Directed.tla defines in/out degrees, the signature vector and the three reciprocity ratios as exact "
@@ -267,6 +270,14 @@ CHECKS["C19"] = dict(CHECKS["C19"], note=NOTE + " Outside the exact regime TLC e
                      "separately in the evidence); alpha is not varied (the code ignores it); get_svc is not covered.")
 
 
+HIST = (" Part of the inputs are HISTORIES OF ONE OBJECT: it is measured (fitted / sampled) with the same arguments, edited in place "
+        "through public calls so that the numbers of nodes and hyperedges stay what they were, and measured again - only the second "
+        "answer is judged, so a table kept per object and revalidated by counts shows.")
+for _p in ("C10", "C11", "C12", "C13", "C17", "C18", "C20"):
+    CHECKS[_p] = dict(CHECKS[_p], text=CHECKS[_p]["text"] + HIST)
+CHECKS["C19"] = dict(CHECKS["C19"], note=CHECKS["C19"]["note"].replace("get_svc is not covered.", "get_svc is covered by the extension X05 (DESIGN.md section 12), not by this check."))
+
+
 def main():
     props = [json.loads(l)["id"] for l in open(os.path.join(ROOT, "properties.jsonl"))]
     checks = []
@@ -303,7 +314,7 @@ def main():
         ],
         "checks": checks,
         "not_applicable": na,
-        "notes": "See DESIGN.md. Genuine defects found are listed in known_findings.json (fixed: entries name the fix: commit in /repo).",
+        "notes": "See DESIGN.md. Genuine defects found are listed in known_findings.json (fixed: entries name the fix: commit in /repo). Beyond the listed properties the specification also covers five extensions (./run.py check X01 .. X05, DESIGN.md section 12; evidence/ext/); they are not registered here because the functions they cover are outside the quantifiers of C01-C20.",
     }
     with open(os.path.join(ROOT, "MANIFEST.json"), "w") as f:
         json.dump(m, f, indent=1)
